@@ -129,6 +129,12 @@ type Desc struct {
 	HelloPlace   string `json:"hello_place,omitempty"`
 	// CloseErr: the transport's Close returns an error (after closing).
 	CloseErr bool `json:"close_err,omitempty"`
+	// PrefVia says how the preference in force at Open time (Preferred) was stated: "" = through
+	// options.WithNetconfPreferredVersion only; "field" = by assigning the exported
+	// Driver.PreferredVersion after NewDriver, no option; "option-then-field" = the option carried
+	// OptionPref and the field was then assigned Preferred (same, other, or "" = withdrawn).
+	PrefVia    string `json:"pref_via,omitempty"`
+	OptionPref string `json:"option_pref,omitempty"`
 	// SearchDepth > 0: options.WithPromptSearchDepth(SearchDepth) is passed (0 = library default 1000).
 	SearchDepth int `json:"search_depth,omitempty"`
 	// Foreign: options meant for CLI drivers that the user's option list carries as well (one list
@@ -759,6 +765,22 @@ func gen(tier string, seed int64) []mon.Case {
 			}
 		}
 	}
+	// --- the preference stated, changed or withdrawn through the exported PreferredVersion field
+	// between NewDriver and Open: what counts is what the user asks for when Open runs
+	perField := 3
+	if tier == "thorough" {
+		perField = 60
+	}
+	r7 := rand.New(rand.NewSource(seed*7919 + 99999909))
+	for k := 0; k < perField; k++ {
+		for ci, c := range cells {
+			for vi, via := range [][2]string{{"field", ""}, {"option-then-field", "1.0"}, {"option-then-field", "1.1"}} {
+				d := GenDesc(r7, c, (k+ci+vi)%2 == 1, -1)
+				d.PrefVia, d.OptionPref = via[0], via[1]
+				add(d)
+			}
+		}
+	}
 	// --- known finding family: the hello's last line (through the delimiter) is longer than the
 	// prompt search depth and a single LF follows the delimiter (default depth and a small one)
 	perLong := 1
@@ -1015,6 +1037,12 @@ func RunDesc(d Desc) mon.Result {
 	var refCaps []string
 	var refSID uint64
 	cellName := c.String()
+	switch d.PrefVia {
+	case "field":
+		cellName += ",via=field"
+	case "option-then-field":
+		cellName += ",via=option(" + d.OptionPref + ")-then-field"
+	}
 	if d.NoHello != "" {
 		cellName = "no-hello,pref=" + map[string]string{"": "none", "1.0": "1.0", "1.1": "1.1"}[d.Preferred]
 		if h, is, _ := parseHello(payload); is {
@@ -1076,8 +1104,14 @@ func RunDesc(d Desc) mon.Result {
 		options.WithTimeoutOps(openTimeout),
 		options.WithReadDelay(time.Duration(d.ReadDelay) * time.Microsecond),
 	}
-	if d.Preferred != "" {
-		opts = append(opts, options.WithNetconfPreferredVersion(d.Preferred))
+	switch d.PrefVia {
+	case "field":
+	case "option-then-field":
+		opts = append(opts, options.WithNetconfPreferredVersion(d.OptionPref))
+	default:
+		if d.Preferred != "" {
+			opts = append(opts, options.WithNetconfPreferredVersion(d.Preferred))
+		}
 	}
 	if d.SearchDepth > 0 {
 		opts = append(opts, options.WithPromptSearchDepth(d.SearchDepth))
@@ -1098,6 +1132,17 @@ func RunDesc(d Desc) mon.Result {
 	}
 
 	obs := map[string]int64{"opens": 1}
+	if d.PrefVia != "" {
+		// the user states (changes, withdraws) the preference on the driver object itself
+		drv.PreferredVersion = d.Preferred
+		obs["preference_via_field_sessions"] = 1
+		if d.PrefVia == "option-then-field" && d.OptionPref != d.Preferred {
+			obs["preference_changed_after_option"] = 1
+			if d.Preferred == "" {
+				obs["preference_withdrawn_after_option"] = 1
+			}
+		}
+	}
 	tags := []string{"cell:" + cellName + "->" + want, "layout=" + d.Layout, "prefix=" + d.Prefix, fmt.Sprintf("decl=%v", d.Decl != ""),
 		"sid=" + sidClass(d.SessionID), "sidpos=" + d.SidPos, fmt.Sprintf("echo=%v", d.Echo), "seg=" + d.Seg.Mode,
 		fmt.Sprintf("traps=%v", d.Traps > 0), fmt.Sprintf("amp=%v", d.Amp), fmt.Sprintf("readdelay=%dus", d.ReadDelay)}
@@ -1596,6 +1641,7 @@ func init() {
 			"capabilities of the hello, look-alikes, absent ones) and repeated lookups after Open judged against the hello sent; a one-shot transport write error at write 1, 2 (the open sequence) and 3 for every succeeding cell x echo; " +
 			"server hello sent 3/20/60 ms after open or at the client's first write, whichever is earlier, x echo on/off x placement relative to the echo (own message before it / contiguous with it / after it) for all cells; " +
 			"transport whose Close returns an error for all cells and hello-less messages; " +
+			"the preference stated, changed or withdrawn by assigning the exported Driver.PreferredVersion between NewDriver and Open (field only; option 1.0/1.1 then field) for all cells; " +
 			"option lists that also carry 1-4 options meant for CLI drivers (prompt pattern, return char, small search depth, failed-when, privilege levels/desired privilege, small read size, login patterns) in PRNG order for all cells; " +
 			"capability texts written with the five predefined entities, literal > \" ', and escaped escapes (&amp;amp; &amp;lt; &amp;#38; &amp;#x26; ...) in query strings and paths, reference = encoding/xml character data. Non-trivial = prefixed element names, or the server's first message delivered in >= 2 transport reads, or a cell that must fail. " +
 			"Distinct = distinct descriptor hash.",
@@ -1610,6 +1656,7 @@ func init() {
 			"server hello timing: the server sends its hello unconditionally within 60 ms (far below the 10 s timeout); a server that withholds its hello until it has the client's is outside (the property does not say whether Open must speak first; the pinned Open reads first and would time out - C05's subject)",
 			"a transport Close that returns an error has nevertheless closed; the error identity of a failing negotiation and exactly one transport Close are judged all the same",
 			"capability escape forms judged: the five predefined entities and escaped escapes; numeric character references ON THE WIRE (&#38;, &#x26;) are generated only with numericRefsOnWire (off: the pinned library leaves them unresolved - reported finding, decision pending)",
+			"the preference that counts is the value of the exported Driver.PreferredVersion when Open is called, however it got there (option, direct assignment, cleared)",
 			"foreign options: a user option that does not apply to NETCONF session establishment must not change the outcome; WithReturnChar other than LF only where the table does not select 1.1 (the library writes the return char as the LF of the chunked framing); WithPromptSearchDepth >= 32 (see next)",
 			"a LF after the hello's delimiter is generated when an earlier LF lies within the last PromptSearchDepth bytes (multi-line layouts), and in a small dedicated family where it does not (one-line hello longer than the depth, default 1000 and 8/12): there the pinned channel cuts its search window at that LF and never sees the delimiter - KNOWN finding, key c09/open-timeout:one-line-hello-over-search-depth-then-lf, decided from the descriptor; any other open timeout keeps the generic key",
 			"trusted base: ncwire strict codec, ncsim server model, encoding/xml, the table (12 lines)",
